@@ -164,4 +164,6 @@ let check _ln line =
      | _ -> Some "unparsable case line")
   | _ -> Some "unparsable case line (bars)"
 
-let () = run_cases Sys.argv.(1) check
+let trunc (s : string) : string = if String.length s > 400 then String.sub s 0 400 ^ "..." else s
+
+let () = run_cases Sys.argv.(1) (fun ln line -> match check ln line with None -> None | Some m -> Some (trunc m))
